@@ -38,6 +38,14 @@ fn main() {
     match cmd {
         "gen-tables" => {
             print!("{}", tables::gen_tables(true));
+            // the break points found by the total scan become boundary values for every generator and
+            // oracle of this build (next to the executable: <target>/boundaries.txt)
+            let mut b = tables::BREAKS.with(|b| b.borrow().clone());
+            b.sort();
+            b.dedup();
+            if let Some(path) = pgen::boundaries_path() {
+                let _ = std::fs::write(path, b.iter().map(|x| x.to_string()).collect::<Vec<_>>().join("\n"));
+            }
         }
         "run" => {
             // ops on stdin, one result line per op on stdout
